@@ -13,6 +13,8 @@ LEAN_MODULES = ["TapkeeVerif.Props.C18"]
 LEAN_EXES = ["model_c18"]
 REQUIRED_THEOREMS = [
     "TapkeeVerif.QuadTree.each_point_once",
+    "TapkeeVerif.QuadTree.default_root_accepts_all",
+    "TapkeeVerif.QuadTree.each_point_once_default",
     "TapkeeVerif.QuadTree.isCorrect_true",
     "TapkeeVerif.QuadTree.mass_and_com",
     "TapkeeVerif.QuadTree.root_mass_and_com",
